@@ -20,6 +20,8 @@ R1.13 the parameter list a signature is rendered from is sorted required-first a
 R1.12 spec text placed after a `#` has every line boundary removed (otherwise the rest of the description is parsed as code)  [= R15.1, COMMENT holes]
 R1.11 RenderContext's completion of "incomplete" internal module paths never applies to a module of the core package
 R1.10 the tag client modules client.py imports are the ones the endpoints emitter writes (grouping agreement, rules of C07)
+R1.16 the overload signatures (parameters in document order) carry no default in front of the keyword-only `*`
+R1.15 enum members of one class get pairwise distinct names (duplicate member = TypeError at import)            [= R20.2, enum members]
 R1.9  duplicate argument names cannot be emitted (operation-level override + de-dup)                     [= R4.4 / R20.2]
 """
 from __future__ import annotations
@@ -72,6 +74,7 @@ def run(repo: Repo, rep: Report, tier: str) -> None:
 
     rule_completion_spares_core(repo, rep, "R1.11")
     rule_required_first(repo, rep, "R1.13")
+    rule_no_default_before_star(repo, rep, "R1.16")
     rule_no_value_return_in_stream(repo, rep, "R1.14")
     # R1.12: nothing that ends a source line survives into a `# comment` built from spec text (instances of R15.1 in COMMENT position)
     from rules._reuse import reuse as _reuse112
@@ -132,6 +135,9 @@ def run(repo: Repo, rep: Report, tier: str) -> None:
     from rules.c20 import rule_stored_names_are_fixed_points
 
     rule_stored_names_are_fixed_points(repo, _Relabel(rep, "R1.9"), "R1.9")
+    # R1.15: two members of one generated Enum never get the same name (a duplicate member raises TypeError when the class is created:
+    # the models package cannot be imported)                                                                       [= R20.2, enum members]
+    _dedup_site(repo.func("visit.model.enum_generator:EnumGenerator.generate"), "enum members", "processed_member_names", _Relabel(rep, "R1.15"))
     po = repo.func("core.loader.operations.parser:parse_operations")
     from rules._params import override_merge_keys
 
@@ -821,3 +827,80 @@ def rule_no_value_return_in_stream(repo: Repo, rep, rule: str = "R1.14") -> None
                               "and the endpoints module cannot be imported", grh0.loc(c))
     rep.count(f"{rule}:value_returns_in_secondary_arms", n)
     rep.require(n >= 2, f"{rule}: only {n} value-return templates found in the secondary arms (floor 2)")
+
+
+# ------------------------------------------------------------------------------------------------ R1.16 no default before the `*` of an overload signature
+def rule_no_default_before_star(repo: Repo, rep, rule: str = "R1.16") -> None:
+    """The multi-content-type signatures list the operation's path/query/header parameters in *document order* in front of the
+    keyword-only separator `*`.  That is only valid Python while none of them carries a default: `def f(self, a: int | None = None, b: str, *, ...)`
+    is a SyntaxError ('parameter without a default follows parameter with a default').  Every string that can be appended to the parameter
+    list on a path that still reaches `append("*")` is therefore default-free - unless the list iterated is sorted required-first."""
+    from sa.cfg import CFG
+    from sa.flatten import flatten
+
+    og = repo.module("visit.endpoint.generators.overload_generator")
+    n = 0
+    for fn0 in og.functions.values():
+        stars = [c for c in calls_in(fn0.node) if isinstance(c.func, ast.Attribute) and c.func.attr == "append" and c.args and const_str(c.args[0]) == "*"
+                 and isinstance(c.func.value, ast.Name)]
+        if not stars:
+            continue
+        fn = flatten(fn0)
+        cfg = CFG(fn.node)
+        lst = stars[0].func.value.id  # type: ignore[attr-defined]
+        star_nodes = [nd for nd in cfg.nodes if nd.kind == "stmt" and nd.ast is not None and not nd.copy and any(
+            isinstance(c.func, ast.Attribute) and c.func.attr == "append" and c.args and const_str(c.args[0]) == "*" for c in calls_in(nd.ast))]
+        if not star_nodes:
+            rep.error(f"{rule}: the `*` separator of {fn0.qualname} was lost by flattening")
+            continue
+        star = star_nodes[0]
+        defs: Dict[str, List[ast.AST]] = {}
+        for x in ast.walk(fn.node):
+            if isinstance(x, ast.Assign) and len(x.targets) == 1 and isinstance(x.targets[0], ast.Name):
+                defs.setdefault(x.targets[0].id, []).append(x.value)
+
+        def texts(e: ast.AST, depth: int = 0) -> List[Optional[str]]:
+            """constant text of every string the expression can evaluate to (holes dropped); None = not understood"""
+            if isinstance(e, ast.Constant) and isinstance(e.value, str):
+                return [e.value]
+            if isinstance(e, ast.JoinedStr):
+                return ["".join(str(v.value) if isinstance(v, ast.Constant) else "\x00" for v in e.values)]
+            if isinstance(e, ast.IfExp):
+                return texts(e.body, depth) + texts(e.orelse, depth)
+            if isinstance(e, ast.BinOp) and isinstance(e.op, ast.Add):
+                return [(a or "") + (b or "") if a is not None and b is not None else None for a in texts(e.left, depth) for b in texts(e.right, depth)]
+            if isinstance(e, ast.Name) and e.id in defs and depth < 4:
+                return [t for v in defs[e.id] for t in texts(v, depth + 1)]
+            return [None]
+
+        for nd in cfg.nodes:
+            if nd.kind != "stmt" or nd.ast is None or nd.copy or nd.id == star.id or star.id not in cfg.reachable(nd.id):
+                continue
+            for c in calls_in(nd.ast):
+                if not (isinstance(c.func, ast.Attribute) and c.func.attr in ("append", "insert") and isinstance(c.func.value, ast.Name) and c.func.value.id == lst and c.args):
+                    continue
+                n += 1
+                ts = texts(c.args[-1])
+                sub = f"{og.relpath}:{fn0.qualname} positional parameter `{norm(c.args[-1])[:50]}`"
+                if any(t is None for t in ts):
+                    rep.error(f"{rule}: cannot read the text appended to the parameter list in {fn0.qualname}: `{norm(c.args[-1])[:60]}`")
+                    continue
+                with_default = [t for t in ts if t is not None and "=" in t.replace("\x00", "")]
+                loops = [a for a in _ancestors_of(c) if isinstance(a, ast.For)]
+                sorted_iter = any(isinstance(x, ast.Call) and dotted(x.func) == "sorted" and any(k.arg == "key" and "required" in norm(k.value) for k in x.keywords)
+                                  for lp in loops for x in ast.walk(lp.iter))
+                if not with_default or sorted_iter:
+                    rep.ok(rule, sub, "no default in front of the `*` separator (document order is valid Python)" if not with_default
+                           else "defaults are emitted over a required-first sorted list", fn0.loc(c))
+                else:
+                    rep.violation(rule, sub, f"{fn0.fq}|default-before-star",
+                                  f"a parameter rendered as `{with_default[0].replace(chr(0), '…')}` is appended in document order in front of `*`: an optional parameter declared "
+                                  "before a required one gives `def f(self, a: T | None = None, b: U, *, ...)` - SyntaxError in the endpoints and mocks modules", fn0.loc(c))
+    rep.require(n >= 2, f"{rule}: only {n} positional appends in front of a `*` separator found in the overload generator (floor 2)")
+
+
+def _ancestors_of(n: ast.AST):
+    x = parent(n)
+    while x is not None:
+        yield x
+        x = parent(x)
